@@ -12,7 +12,6 @@ import (
 	"crypto/elliptic"
 	"crypto/sha256"
 	"crypto/sha512"
-	"encoding/binary"
 	"fmt"
 	"math/big"
 
@@ -306,9 +305,4 @@ func Nonce(n int) channel.Nonce {
 		b[i] = byte(0x80 | (i + n))
 	}
 	return new(big.Int).SetBytes(b)
-}
-
-func u64(label string) uint64 {
-	h := sha256.Sum256([]byte(label))
-	return binary.BigEndian.Uint64(h[:8])
 }
